@@ -1,0 +1,18 @@
+//go:build verif
+
+// Contracts for gvc (/verif). Comment-only: this file adds no declarations.
+
+package math
+
+// C17 sweep: math: builtins never panic, whatever their arguments (math/big's
+// documented panics - division by zero in Inv/SetFrac/Quo - are obligations).
+// (arguments of type vals.Num are converted by the builtin-call wrapper and are
+// always int, *big.Int, *big.Rat or float64)
+//@ spec fn isnumber(x any) bool = istype(x, int) || istype(x, *big.Int) || istype(x, *big.Rat) || istype(x, float64)
+//@ func pow
+//@   props C17 C11
+//@   requires isnumber(base) && isnumber(exp)
+//@ func isExact
+//@   inline
+//@ func isExactInt
+//@   inline
